@@ -231,10 +231,14 @@ IncrByFloat(d, a) ==
         ELSE Res(Put(d, k, VStr(new, ExpOf(d, k))), RBulk(new))
 
 \* length of a longest common subsequence
-RECURSIVE LcsLen(_, _)
-LcsLen(x, y) == IF x = <<>> \/ y = <<>> THEN 0
-                ELSE IF Head(x) = Head(y) THEN 1 + LcsLen(Tail(x), Tail(y))
-                ELSE Max2(LcsLen(Tail(x), y), LcsLen(x, Tail(y)))
+\* length of the longest common subsequence, by rows of the usual table (row k+1 = column k); the textbook
+\* recursion is exponential and a random walk that APPENDs to a 19-digit number and then asks for LCS never ends
+LcsRow(prev, xi, y) ==
+    FoldLeft(LAMBDA acc, j : Append(acc, IF xi = y[j] THEN prev[j] + 1 ELSE Max2(prev[j + 1], acc[j])),
+             <<0>>, [j \in 1..Len(y) |-> j])
+LcsLen(x, y) ==
+    LET last == FoldLeft(LAMBDA prev, i : LcsRow(prev, x[i], y), [k \in 1..(Len(y) + 1) |-> 0], [i \in 1..Len(x) |-> i])
+    IN  last[Len(y) + 1]
 
 Lcs(d, a) ==
     LET x == StrOf(d, a[1])
